@@ -200,8 +200,7 @@ static int64_t child_write(Kernel *k, Proc *p, int fd, int64_t want, bool *fatal
     if (pp->readers == 0) { *fatal_pipe = true; return 0; }
     int64_t n = want < (int64_t) pp->space() ? want : (int64_t) pp->space();
     for (int64_t i = 0; i < n; i++) {
-      pp->buf[(pp->head + pp->len) % pp->cap] = k->byte_at(p->uid, stream, p->out_off[stream]++);
-      pp->len++;
+      pp->push(k->byte_at(p->uid, stream, p->out_off[stream]++));
     }
     pp->total_w += (uint64_t) n;
     return n;
@@ -222,9 +221,7 @@ static int64_t child_read(Kernel *k, Proc *p, int64_t max, bool *eof) {
   if (pp->len == 0) { *eof = pp->writers == 0; return 0; }
   int64_t n = max < (int64_t) pp->len ? max : (int64_t) pp->len;
   for (int64_t i = 0; i < n; i++) {
-    uint8_t b = pp->buf[pp->head];
-    pp->head = (pp->head + 1) % pp->cap;
-    pp->len--;
+    uint8_t b = pp->pop();
     if (b != k->byte_at(1000 + p->handle, 0, p->in_off)) p->in_bad = true;
     p->in_off++;
   }
